@@ -78,27 +78,45 @@ Definition host0 (N : Z) : host := mkHost false false true [255] N None [] 0 tru
 (* what radio.send_packet returns: None, or a _radio_ack with .ack and .data *)
 Inductive resp := RNone | RAck (ack : bool) (data : list Z).
 
-(* Crazyradio.send_packet: USBError -> None; else status byte :: payload *)
-Definition radio_ack_of_usb (u : option (list Z)) : resp :=
+(* Crazyradio.send_packet builds a _radio_ack from the dongle's answer (status byte :: payload):
+     if data[0] != 0: ack = data[0] & 1 != 0; powerDet = data[0] & 2 != 0; retry = data[0] >> 4; data = data[1:]
+     else:            ack = False; powerDet = False; retry = self.arc; data = ()
+   usb.USBError on write/read -> None. *)
+Record radio_ack := mkAck { a_ack : bool; a_pdet : bool; a_retry : Z; a_data : list Z }.
+
+Definition parse_ack (arc : Z) (u : option (list Z)) : option radio_ack :=
   match u with
-  | None => RNone
-  | Some [] => RNone   (* data[0] on an empty read raises IndexError: not produced by the dongle *)
+  | None => None
+  | Some [] => None   (* data[0] on an empty read raises IndexError: not produced by the dongle *)
   | Some (s :: payload) =>
-      if s =? 0 then RAck false [] else RAck (negb (Z.land s 1 =? 0)) payload
+      if s =? 0 then Some (mkAck false false arc [])
+      else Some (mkAck (negb (Z.land s 1 =? 0)) (negb (Z.land s 2 =? 0)) (Z.shiftr s 4) payload)
   end.
+
+(* the part of it the radio loop looks at *)
+Definition resp_of_ack (a : option radio_ack) : resp :=
+  match a with None => RNone | Some x => RAck (a_ack x) (a_data x) end.
+
+Definition radio_ack_of_usb (u : option (list Z)) : resp := resp_of_ack (parse_ack 3 u).
+
+(* RadioLinkStatistics._update_link_quality: window of the last 100 values of (10 - ack.retry);
+   link_quality = sum / len * 10.  Kept apart from `host`: nothing in the loop reads it. *)
+Definition lq_push (w : list Z) (retry : Z) : list Z :=
+  let w1 := w ++ [10 - retry] in if (100 <? Z.of_nat (length w1)) then tl w1 else w1.
+Definition lq_sum (w : list Z) : Z := fold_right Z.add 0 w.
 
 (* the bytes handed to radio.send_packet in the main loop *)
 Definition host_frame (h : host) : frame :=
   if h_safe h then stamp (h_up h) (h_down h) (h_out h) else h_out h.
 
-(* everything run() does between radio.send_packet returning r and the next transmission.
-   Result: new host state, and whether link_error_callback was called. *)
-Definition host_recv (N : Z) (r : resp) (h : host) : host * bool :=
-  let out1 := host_frame h in      (* the stamping is done in place on dataOut *)
+(* _send_packet_safe, up to the call of cr.send_packet: the header bits are written in place *)
+Definition host_sent (h : host) : host :=
+  mkHost (h_safe h) (h_up h) (h_down h) (host_frame h) (h_retry h) (h_outq h) (h_inq h) (h_errs h) (h_needs h).
+
+(* _send_packet_safe, after cr.send_packet returned r: the two one-bit counters *)
+Definition host_flip (r : resp) (h : host) : host :=
   match r with
-  | RNone =>
-      (mkHost (h_safe h) (h_up h) (h_down h) out1 (h_retry h) (h_outq h) (h_inq h) (h_errs h) (h_needs h),
-       false)
+  | RNone => h
   | RAck ack data =>
       let down1 :=
         if h_safe h then
@@ -109,10 +127,19 @@ Definition host_recv (N : Z) (r : resp) (h : host) : host * bool :=
           end
         else h_down h in
       let up1 := if h_safe h && ack then negb (h_up h) else h_up h in
+      mkHost (h_safe h) up1 down1 (h_out h) (h_retry h) (h_outq h) (h_inq h) (h_errs h) (h_needs h)
+  end.
+
+(* the body of run() below the try/except, applied to the value of the local `ackStatus`.
+   Result: new host state, and whether link_error_callback('Too many packets lost') was called. *)
+Definition host_loop (N : Z) (r : resp) (h : host) : host * bool :=
+  match r with
+  | RNone => (h, false)                               (* "if ackStatus is None: continue" *)
+  | RAck ack data =>
       if negb ack then
         let r1 := h_retry h - 1 in
         let e := r1 =? 0 in
-        (mkHost (h_safe h) up1 down1 out1 r1 (h_outq h) (h_inq h)
+        (mkHost (h_safe h) (h_up h) (h_down h) (h_out h) r1 (h_outq h) (h_inq h)
                 (if e then h_errs h + 1 else h_errs h) (h_needs h), e)
       else
         let inq1 := match data with
@@ -123,8 +150,18 @@ Definition host_recv (N : Z) (r : resp) (h : host) : host * bool :=
                     | Some f => f
                     | None => [255]
                     end in
-        (mkHost (h_safe h) up1 down1 out2 N None inq1 (h_errs h) (h_needs h), false)
+        (mkHost (h_safe h) (h_up h) (h_down h) out2 N None inq1 (h_errs h) (h_needs h), false)
   end.
+
+(* one iteration in which radio.send_packet returned r (no exception) *)
+Definition host_recv (N : Z) (r : resp) (h : host) : host * bool :=
+  host_loop N r (host_flip r (host_sent h)).
+
+(* one iteration in which radio.send_packet RAISED: link_error_callback('Error communicating with crazy
+   radio ...') is called, `ackStatus` keeps the value of the previous iteration (`stale`) and the rest of
+   the body runs on it AGAIN; the counters are not touched (the raise comes before them). *)
+Definition host_exc (N : Z) (stale : resp) (h : host) : host * bool :=
+  host_loop N stale (host_sent h).
 
 (* safelink negotiation: one attempt of radio.send_packet((0xff, 0x05, 0x01)) *)
 Definition enable_frame : frame := [255; 5; 1].
@@ -170,6 +207,31 @@ Definition host_receive (h : host) : host * option frame :=
   | x :: t => (mkHost (h_safe h) (h_up h) (h_down h) (h_out h) (h_retry h) (h_outq h) t
                       (h_errs h) (h_needs h), Some x)
   end.
+
+(* RadioDriver.send_packet whose out_queue.put(pk, True, 2) ran into its 2 s timeout: queue.Full ->
+   link_error_callback('RadioDriver: Could not send packet to copter') FROM THE SENDING THREAD, returns
+   False.  Possible only while the queue is full; on a non-full queue the put succeeds at once.
+   Result: host, accepted?, error reported? *)
+Definition host_submit_timeout (p : frame) (h : host) : host * bool * bool :=
+  match h_outq h with
+  | Some _ => (h, false, true)
+  | None => (fst (host_submit p h), true, false)
+  end.
+
+(* RadioDriver.receive_packet(wait): wait == 0 -> in_queue.get(False); wait < 0 -> in_queue.get(True) (blocks
+   until a packet is there); wait > 0 -> in_queue.get(True, wait).  On a non-empty queue all three return
+   the head.  On an empty queue: 0 and > 0 return None (the latter after `wait` seconds); < 0 does not
+   return — modelled as "still blocked" (no effect), third component true. *)
+Definition host_receive_wait (wait : Z) (h : host) : host * option frame * bool :=
+  match h_inq h with
+  | [] => (h, None, wait <? 0)
+  | _ => let '(h1, x) := host_receive h in (h1, x, false)
+  end.
+
+(* RadioDriver.close(): stop the thread, close the dongle, THROW AWAY what is in out_queue, clear the
+   callbacks.  in_queue is left as it is.  (dataOut is a local of the stopped thread: gone as well.) *)
+Definition host_close (h : host) : host :=
+  mkHost (h_safe h) (h_up h) (h_down h) (h_out h) (h_retry h) None (h_inq h) (h_errs h) (h_needs h).
 
 (* ------------------------------------------------------------------ peer (environment) *)
 
@@ -231,32 +293,54 @@ Record world := mkW {
   w_p : peer;
   w_accepted : list frame;   (* log: packets for which RadioDriver.send_packet returned True *)
   w_queued : list frame;     (* log: packets the Crazyflie queued for the host *)
-  w_got : list frame         (* log: packets returned by RadioDriver.receive_packet *)
+  w_got : list frame;        (* log: packets returned by RadioDriver.receive_packet *)
+  w_last : resp;             (* the loop's local `ackStatus`: the answer of the previous iteration *)
+  w_xerrs : Z;               (* link_error_callback('Error communicating with crazy radio ...') calls *)
+  w_serrs : Z                (* link_error_callback('RadioDriver: Could not send packet to copter') calls *)
 }.
 
 Inductive event :=
 | Submit (hdr : Z) (data : list Z)        (* application thread: link.send_packet(pk) *)
 | PeerQueue (hdr : Z) (data : list Z)     (* Crazyflie firmware queues a packet for the host *)
 | Recv                                    (* application thread: link.receive_packet(0) *)
-| Tx (o : outcome) (fill : list Z).       (* one iteration of the radio loop; fill = bytes after 0xF3 of
+| Tx (o : outcome) (fill : list Z)        (* one iteration of the radio loop; fill = bytes after 0xF3 of
                                              the null packet the peer answers with when it has nothing *)
+| TxUsb (exc : bool)                      (* one iteration in which the dongle fails: radio.send_packet returns
+                                             None (exc = false: usb.USBError swallowed by Crazyradio) or raises *)
+| SubmitTimeout (hdr : Z) (data : list Z) (* link.send_packet(pk) that gave up after its 2 s *)
+| RecvWait (wait : Z).                    (* link.receive_packet(wait) *)
 
 Definition step (N : Z) (e : event) (w : world) : world :=
   match e with
   | Submit hdr data =>
       let '(h1, ok) := host_submit (hdr :: data) (w_h w) in
       mkW h1 (w_p w) (if ok then w_accepted w ++ [hdr :: data] else w_accepted w) (w_queued w) (w_got w)
+          (w_last w) (w_xerrs w) (w_serrs w)
   | PeerQueue hdr data =>
       let p := w_p w in
       mkW (w_h w) (mkPeer (p_on p) (p_up p) (p_down p) (p_rx p) (p_txq p ++ [hdr :: data]) (p_last p))
-          (w_accepted w) (w_queued w ++ [hdr :: data]) (w_got w)
+          (w_accepted w) (w_queued w ++ [hdr :: data]) (w_got w) (w_last w) (w_xerrs w) (w_serrs w)
   | Recv =>
       let '(h1, x) := host_receive (w_h w) in
       mkW h1 (w_p w) (w_accepted w) (w_queued w)
-          (match x with Some f => w_got w ++ [f] | None => w_got w end)
+          (match x with Some f => w_got w ++ [f] | None => w_got w end) (w_last w) (w_xerrs w) (w_serrs w)
   | Tx o fill =>
       let '(p1, r) := transmit o (host_frame (w_h w)) fill (w_p w) in
-      mkW (fst (host_recv N r (w_h w))) p1 (w_accepted w) (w_queued w) (w_got w)
+      mkW (fst (host_recv N r (w_h w))) p1 (w_accepted w) (w_queued w) (w_got w) r (w_xerrs w) (w_serrs w)
+  | TxUsb false =>
+      mkW (fst (host_recv N RNone (w_h w))) (w_p w) (w_accepted w) (w_queued w) (w_got w) RNone
+          (w_xerrs w) (w_serrs w)
+  | TxUsb true =>
+      mkW (fst (host_exc N (w_last w) (w_h w))) (w_p w) (w_accepted w) (w_queued w) (w_got w) (w_last w)
+          (w_xerrs w + 1) (w_serrs w)
+  | SubmitTimeout hdr data =>
+      let '(h1, ok, err) := host_submit_timeout (hdr :: data) (w_h w) in
+      mkW h1 (w_p w) (if ok then w_accepted w ++ [hdr :: data] else w_accepted w) (w_queued w) (w_got w)
+          (w_last w) (w_xerrs w) (if err then w_serrs w + 1 else w_serrs w)
+  | RecvWait wait =>
+      let '(h1, x, _) := host_receive_wait wait (w_h w) in
+      mkW h1 (w_p w) (w_accepted w) (w_queued w)
+          (match x with Some f => w_got w ++ [f] | None => w_got w end) (w_last w) (w_xerrs w) (w_serrs w)
   end.
 
 Definition run (N : Z) (w : world) (evs : list event) : world :=
@@ -290,11 +374,14 @@ Fixpoint boot_loop (n : nat) (negs : list negout) (p : peer) : peer * bool * lis
       else let '(p2, ok, rs) := boot_loop n' (tl negs) p1 in (p2, ok, r :: rs)
   end.
 
-Definition world0 (N : Z) (p0 : peer) : world := mkW (host0 N) p0 [] (p_txq p0) [].
+Definition world0 (N : Z) (p0 : peer) : world := mkW (host0 N) p0 [] (p_txq p0) [] RNone 0 0.
 
 Definition boot (negs : list negout) (w : world) : world :=
   let '(p1, ok, _) := boot_loop 10 negs (w_p w) in
-  mkW (host_after_boot ok (w_h w)) p1 (w_accepted w) (w_queued w) (w_got w).
+  mkW (host_after_boot ok (w_h w)) p1 (w_accepted w) (w_queued w) (w_got w) (w_last w) (w_xerrs w) (w_serrs w).
+
+Definition close_world (w : world) : world :=
+  mkW (host_close (w_h w)) (w_p w) (w_accepted w) (w_queued w) (w_got w) (w_last w) (w_xerrs w) (w_serrs w).
 
 Definition session (N : Z) (p0 : peer) (negs : list negout) (evs : list event) : world :=
   run N (boot negs (world0 N p0)) evs.
@@ -320,6 +407,8 @@ Definition ev_ok (e : event) : Prop :=
   match e with
   | Submit hdr _ => Z.land hdr 243 <> 243
   | PeerQueue hdr _ => Z.land hdr 243 <> 243
+  | SubmitTimeout hdr _ => Z.land hdr 243 <> 243
+  | TxUsb exc => exc = false       (* the dongle may fail silently (None); an exception is a reported link failure *)
   | _ => True
   end.
 
@@ -334,7 +423,12 @@ Definition confirmed (N : Z) (p0 : peer) (negs : list negout) : Prop :=
 Definition tx_outcomes (evs : list event) : list outcome :=
   flat_map (fun e => match e with Tx o _ => [o] | _ => [] end) evs.
 
-Definition not_tx (e : event) : Prop := match e with Tx _ _ => False | _ => True end.
+(* no iteration in which radio.send_packet raised *)
+Definition no_exc (e : event) : Prop := match e with TxUsb true => False | _ => True end.
+
+Definition not_tx (e : event) : Prop := match e with Tx _ _ => False | TxUsb true => False | _ => True end.
+
+Definition is_tx_ok (e : event) : bool := match e with Tx Ok _ => true | _ => false end.
 
 Definition is_ok (o : outcome) : bool := match o with Ok => true | _ => false end.
 
@@ -357,25 +451,33 @@ Definition resp_obs (r : resp) : list Z :=
   | RAck a d => b2 a :: Z.of_nat (length d) :: d
   end.
 
-(* per transmission: frame on the wire, answer seen by the host, then (after processing) error count,
-   in_queue length; other events: acceptance / returned packet *)
+(* per transmission: frame on the wire, answer seen by the host (-1: None, -7: raised); other events:
+   acceptance / returned packet; after every event the three error-callback counts and the in_queue length *)
 Fixpoint run_obs (N : Z) (w : world) (evs : list event) : list Z * world :=
   match evs with
   | [] => ([], w)
   | e :: t =>
       let w1 := step N e w in
+      let grew := b2 (negb (Nat.eqb (length (w_accepted w1)) (length (w_accepted w)))) in
       let o :=
         match e with
         | Tx o fill =>
             let f := host_frame (w_h w) in
             let r := snd (transmit o f fill (w_p w)) in
             (Z.of_nat (length f) :: f) ++ resp_obs r
-        | Submit _ _ => [b2 (negb (Nat.eqb (length (w_accepted w1)) (length (w_accepted w))))]
+        | TxUsb exc => let f := host_frame (w_h w) in (Z.of_nat (length f) :: f) ++ [if exc then -7 else -1]
+        | Submit _ _ => [grew]
+        | SubmitTimeout _ _ => [grew; w_serrs w1 - w_serrs w]
         | Recv => match snd (host_receive (w_h w)) with Some f => Z.of_nat (length f) :: f | None => [-1] end
+        | RecvWait wt =>
+            match host_receive_wait wt (w_h w) with
+            | (_, Some f, _) => Z.of_nat (length f) :: f
+            | (_, None, blocked) => [if blocked then -8 else -1]
+            end
         | PeerQueue _ _ => []
         end in
       let '(os, w2) := run_obs N w1 t in
-      (o ++ [h_errs (w_h w1); Z.of_nat (length (h_inq (w_h w1)))] ++ os, w2)
+      (o ++ [h_errs (w_h w1); w_xerrs w1; w_serrs w1; Z.of_nat (length (h_inq (w_h w1)))] ++ os, w2)
   end.
 
 Definition host_obs (h : host) : list Z :=
@@ -389,40 +491,71 @@ Definition world_obs (w : world) : list Z :=
   ++ [b2 (p_on p); b2 (p_up p); b2 (p_down p)] ++ flatf (p_rx p) ++ [-4] ++ flatf (p_txq p) ++ [-5]
   ++ flatf (olist (p_last p)) ++ [-6] ++ flatf (w_got w).
 
-(* boot as the host sees it: the answers to its attempts *)
-Definition session_obs (N : Z) (p0 : peer) (negs : list negout) (evs : list event) : list Z :=
+(* boot as the host sees it: the answers to its attempts; `close` = RadioDriver.close() after the last event *)
+Definition session_obs (N : Z) (p0 : peer) (negs : list negout) (evs : list event) (close : bool) : list Z :=
   let w0 := world0 N p0 in
   let '(_, _, rs) := boot_loop 10 negs (w_p w0) in
   let '(os, w) := run_obs N (boot negs w0) evs in
-  (Z.of_nat (length rs) :: concat (map resp_obs rs)) ++ os ++ world_obs w.
+  (Z.of_nat (length rs) :: concat (map resp_obs rs)) ++ os ++ world_obs (if close then close_world w else w).
 
 (* ---- host alone, driven by arbitrary dongle answers (no peer): widens the tie to answers the peer
-        model never produces (USB errors, empty payloads, wrong bits, unacknowledged payloads) ---- *)
+        model never produces (USB errors, exceptions, empty payloads, wrong bits, unacknowledged payloads) ---- *)
 Inductive hevent :=
 | HSubmit (hdr : Z) (data : list Z)
 | HRecv
-| HTx (u : option (list Z)).       (* raw USB read: None = USBError, Some (status :: payload) *)
+| HTx (u : option (list Z))        (* raw USB read: None = USBError, Some (status :: payload) *)
+| HTxExc                           (* radio.send_packet raises *)
+| HSubmitTimeout (hdr : Z) (data : list Z)
+| HRecvWait (wait : Z).
 
-Fixpoint hrun_obs (N : Z) (h : host) (got : list frame) (evs : list hevent) : list Z * host * list frame :=
-  match evs with
-  | [] => ([], h, got)
-  | e :: t =>
-      let '(o, h1, got1) :=
-        match e with
-        | HSubmit hdr data => let '(h1, ok) := host_submit (hdr :: data) h in ([b2 ok], h1, got)
-        | HRecv => let '(h1, x) := host_receive h in
-                   (match x with Some f => Z.of_nat (length f) :: f | None => [-1] end, h1,
-                    match x with Some f => got ++ [f] | None => got end)
-        | HTx u => let f := host_frame h in let r := radio_ack_of_usb u in
-                   ((Z.of_nat (length f) :: f) ++ resp_obs r, fst (host_recv N r h), got)
-        end in
-      let '(os, h2, got2) := hrun_obs N h1 got1 t in
-      (o ++ [h_errs h1; Z.of_nat (length (h_inq h1))] ++ os, h2, got2)
+Record hworld := mkHW { hw_h : host; hw_got : list frame; hw_last : resp; hw_xerrs : Z; hw_serrs : Z }.
+
+Definition hstep (N : Z) (e : hevent) (w : hworld) : list Z * hworld :=
+  let h := hw_h w in
+  match e with
+  | HSubmit hdr data =>
+      let '(h1, ok) := host_submit (hdr :: data) h in
+      ([b2 ok], mkHW h1 (hw_got w) (hw_last w) (hw_xerrs w) (hw_serrs w))
+  | HSubmitTimeout hdr data =>
+      let '(h1, ok, err) := host_submit_timeout (hdr :: data) h in
+      ([b2 ok; b2 err], mkHW h1 (hw_got w) (hw_last w) (hw_xerrs w) (hw_serrs w + b2 err))
+  | HRecv =>
+      let '(h1, x) := host_receive h in
+      (match x with Some f => Z.of_nat (length f) :: f | None => [-1] end,
+       mkHW h1 (match x with Some f => hw_got w ++ [f] | None => hw_got w end) (hw_last w) (hw_xerrs w) (hw_serrs w))
+  | HRecvWait wt =>
+      let '(h1, x, blocked) := host_receive_wait wt h in
+      (match x with Some f => Z.of_nat (length f) :: f | None => [if blocked then -8 else -1] end,
+       mkHW h1 (match x with Some f => hw_got w ++ [f] | None => hw_got w end) (hw_last w) (hw_xerrs w) (hw_serrs w))
+  | HTx u =>
+      let f := host_frame h in let r := radio_ack_of_usb u in
+      ((Z.of_nat (length f) :: f) ++ resp_obs r,
+       mkHW (fst (host_recv N r h)) (hw_got w) r (hw_xerrs w) (hw_serrs w))
+  | HTxExc =>
+      let f := host_frame h in
+      ((Z.of_nat (length f) :: f) ++ [-7],
+       mkHW (fst (host_exc N (hw_last w) h)) (hw_got w) (hw_last w) (hw_xerrs w + 1) (hw_serrs w))
   end.
 
-(* number of answers the negotiation consumed *)
-Definition host_session_obs (N : Z) (us : list (option (list Z))) (evs : list hevent) : list Z :=
+Fixpoint hrun_obs (N : Z) (w : hworld) (evs : list hevent) : list Z * hworld :=
+  match evs with
+  | [] => ([], w)
+  | e :: t =>
+      let '(o, w1) := hstep N e w in
+      let '(os, w2) := hrun_obs N w1 t in
+      (o ++ [h_errs (hw_h w1); hw_xerrs w1; hw_serrs w1; Z.of_nat (length (h_inq (hw_h w1)))] ++ os, w2)
+  end.
+
+Definition host_session_obs (N : Z) (us : list (option (list Z))) (evs : list hevent) (close : bool) : list Z :=
   let rs := map radio_ack_of_usb us in
   let '(h, made) := host_boot rs (host0 N) in
-  let '(os, h1, got) := hrun_obs N h [] evs in
-  (Z.of_nat made :: concat (map resp_obs (firstn made rs))) ++ os ++ host_obs h1 ++ flatf got.
+  let '(os, w) := hrun_obs N (mkHW h [] RNone 0 0) evs in
+  (Z.of_nat made :: concat (map resp_obs (firstn made rs))) ++ os
+  ++ host_obs (if close then host_close (hw_h w) else hw_h w) ++ flatf (hw_got w).
+
+(* Crazyradio.send_packet's _radio_ack, flattened: -1 for None, else ack, powerDet, retry, len, data *)
+Definition ack_obs (a : option radio_ack) : list Z :=
+  match a with
+  | None => [-1]
+  | Some x => [b2 (a_ack x); b2 (a_pdet x); a_retry x; Z.of_nat (length (a_data x))] ++ a_data x
+  end.
